@@ -4,5 +4,5 @@ set -e
 cd "$(dirname "$0")"
 /venv/bin/python tools/translate.py
 cd lean
-lake build 2>&1 | grep -v '^✔' | tail -40
+lake build 2>&1 | grep -v "^✔" | tail -40; test ${PIPESTATUS[0]} -eq 0
 test -x .lake/build/bin/sqlmodel
